@@ -53,6 +53,9 @@ func TestC07(t *testing.T) {
 					b.Method(fmt.Sprintf("M%d", i), o.MaxDepth)
 				}
 			}
+			if rapid.IntRange(0, 3).Draw(rt, "recursive-late") == 0 {
+				b.RecursiveLate("R0")
+			}
 			b.Conv.Settings.EnumOff = true
 			b.Finish()
 			c := runCase{Conv: b.Conv, Mode: "fault", Values: values, Seed: rapid.Uint64().Draw(rt, "drvseed"), Funcs: b.Funcs, Distinct: true, Wrap: wrap}
